@@ -2066,7 +2066,11 @@ fn savefile_derive_crate_withschema(input: DeriveInput) -> TokenStream {
             let max_variant_fields = enum1.variants.iter().map(|x| x.fields.len()).max().unwrap_or(0);
 
             let enum_size = get_enum_size(&input.attrs, enum1.variants.len());
-            let need_determine_offsets = enum_size.explicit_size;
+            // The schema records the variant index as discriminant. With explicit discriminant
+            // values, the tag in memory is something else, so the schema cannot describe the
+            // memory layout (and a variant cannot be conjured from its index to measure offsets).
+            let explicit_discriminants = enum1.variants.iter().any(|v| v.discriminant.is_some());
+            let need_determine_offsets = enum_size.explicit_size && !explicit_discriminants;
 
             let mut variants = Vec::new();
             let mut variant_field_offset_extractors = vec![];
@@ -2244,7 +2248,7 @@ fn savefile_derive_crate_withschema(input: DeriveInput) -> TokenStream {
             }
 
             let discriminant_size = enum_size.discriminant_size;
-            let has_explicit_repr = enum_size.repr_c;
+            let has_explicit_repr = enum_size.repr_c && !explicit_discriminants;
 
             quote! {
                 #field_offset_impl
